@@ -23,12 +23,21 @@ LAYOUTS = [
     ([0, 0, 0, 0, 1, 1, 1, 2, 2, 2, 2], [NAV, 1, NAV, 1, NAV, NAV, 1, 2, NAV, 0, 2]),
     # descending values inside groups (an in-place sort would be visible to a later order-sensitive helper)
     ([0, 0, 0, 1, 1, 1, 1], [3, 2, 0, 2, 3, 1, 0]),
+    # a missing value first and every element once (mode ties: the missing value wins when it is not dropped)
+    ([0, 0, 0, 1, 1, 1], [NAV, 2, 1, 3, NAV, 0]),
 ]
 FN = {"all": np.all, "any": np.any, "count": len, "max": np.amax, "mean": np.mean, "median": np.median,
       "min": np.amin, "std": np.std, "sum": np.sum, "var": np.var}
 
 
-def column(kind, xs):
+def column(kind, xs, big=False):
+    if big and kind == "float":
+        # large magnitude relative to the spread: one-pass variance formulas lose all precision here
+        return di.Vector([math.nan if v == NAV else 1.7e9 + v for v in xs], float)
+    return column0(kind, xs)
+
+
+def column0(kind, xs):
     if kind == "bool":
         return di.Vector([bool(v % 2) if v != NAV else False for v in xs], bool)
     if kind == "int":
@@ -52,6 +61,8 @@ def helper(h, a):
         return f("x", a["idx"], **kw)
     if h == "quantile":
         return f("x", a["q4"] / 4, **kw)
+    if h in ("std", "var"):
+        kw["ddof"] = a.get("ddof", 0)
     return f("x", **kw)
 
 
@@ -90,7 +101,7 @@ def run(call):
     g, xs = call["data"] if call.get("data") else LAYOUTS[call["layout"]]
     out = {"err": "", "numba": [], "python": [], "tn": "", "tp": "", "status": ""}
     try:
-        d = di.DataFrame(g=di.Vector(g, int), x=column(call["kind"], xs))
+        d = di.DataFrame(g=di.Vector(g, int), x=column(call["kind"], xs, call.get("big", False)))
         disp = dispatcher(call["h"])
         before = stats(disp)
         h2 = call.get("h2", "")
